@@ -55,7 +55,7 @@ def _noise14(rng: random.Random, kind: str) -> bytes:
         return bytes(rng.choice(b"/!\n\r\x7e\x7d\x80\xff0123456789abcdefABCDEFzxG \\(" + bytes([rng.randrange(256)])) for _ in range(n))
     if kind == "p1ish":
         parts = [b"/", b"!", b"\n", b"\r\n", b"/ABC5", b"/ABC5id\r\n", b"!zz\r\n", b"!\xff\r\n", b"!12AB\r\n", b"/AB\xe65\r\n", b"\xff",
-                 b"1-0:1.8.0(1*kWh)\r\n", b"/ABC5x!y\r\n", b"!+1_0\r\n", b"!0x\r\n", b"! \r\n", b"\x1c/ABC5\x1d\r\n", b"/ABC5\\", b" \t"]
+                 b"1-0:1.8.0(1*kWh)\r\n", b"/ABC5x!y\r\n", b"!+1_0\r\n", b"!0x\r\n", b"! \r\n", b"!A0\r\n", b"!A\r\n", b"!ABC\r\n", b"!ABCDE\r\n", b"!A0 \r\n", b"/ABC5id\r\n1-0:1.8.0(1*kWh)\r\n", b"\x1c/ABC5\x1d\r\n", b"/ABC5\\", b" \t"]
         return b"".join(rng.choice(parts) for _ in range(rng.randint(1, 12)))
     if kind == "hdlcish":
         parts = [b"\x7e", b"\x7d", b"\x7e\xa0", b"\xa0\x07\x01\x03\x13", b"\x7d\x7e", b"\x7e\x7d", b"\x5e", b"\xff", b"\x00",
@@ -85,6 +85,16 @@ def almost_readouts(rng: random.Random, k: int) -> bytes:
     return out
 
 
+def longrun(rng: random.Random, reader: str) -> bytes:
+    """Long runs of one octet / one short unit (an idle or stuck line), long enough for anything that recurses or re-scans per octet."""
+    n = rng.choice([1000, 1100, 1500, 2040, 2100])
+    if reader == "hdlc":
+        unit = rng.choice([b"\x00", b"\x02", b"\xfe", b"\x7d", b"\x01", b"\xff", b"\xa0", b"\x7d\x5e", b"\x00\x02"])
+        return b"\x7e" + (unit * n)[:n] + rng.choice([b"", b"\x7e"])
+    unit = rng.choice([b"(", b")", b"*", b"/", b"!", b"\r", b"(1)", b"1.8.0(", b"/A", b"\\2"])
+    return rng.choice([b"", b"/ABC5id\r\n", b"/"]) + (unit * n)[:n * 2] + rng.choice([b"", b"\r\n", b"\r\n!\r\n"])
+
+
 def almost_frames(rng: random.Random, cfg) -> bytes:
     """Frames damaged in one place with everything else right (truncated after the header check, wrong length with good checks, ...)."""
     out = b""
@@ -96,13 +106,16 @@ def almost_frames(rng: random.Random, cfg) -> bytes:
 
 
 def _mk_c14_hdlc(args):
+    from .core import set_logging
+    set_logging(args)
     seed, n = args
     rng = random.Random(seed)
     out = []
     for k in range(n):
         cfg = H.CFGS[k % 4]
-        kind = (KINDS14 + ["almost"])[(k // 4) % 5]
-        plan = [H.item_noise(almost_frames(rng, cfg) if kind == "almost" else _noise14(rng, kind)), H.item_flags(rng.choice([1, 2]))]
+        kind = (KINDS14 + ["almost", "longrun"])[(k // 4) % 6]
+        plan = [H.item_noise(almost_frames(rng, cfg) if kind == "almost" else longrun(rng, "hdlc") if kind == "longrun" else _noise14(rng, kind)),
+                H.item_flags(rng.choice([1, 2]))]
         for j in range(rng.randint(2, 4)):
             it = H.item_frame(rng, maxinfo=40, sizes=[2, 3, 8, 20], tag=j)
             if len(it["info"]) < 2:
@@ -112,20 +125,23 @@ def _mk_c14_hdlc(args):
             plan += [it, H.item_flags(rng.choice([1, 2]))]
         data = H.plan_wire(cfg, plan)
         cuts = chunkings(rng, len(data), 3)
-        out.append(H.make_trace(cfg, data, cuts, mode="resync", plan=plan, origin="gen:c14:" + kind))
+        # long runs: the implementation-shaped spec re-scans the header per octet like the code does (quadratic); only the contract is judged
+        out.append(H.make_trace(cfg, data, cuts, mode="resync", plan=plan, origin="gen:c14:" + kind, nodrift=(kind == "longrun")))
     return out
 
 
 def _mk_c14_p1(args):
+    from .core import set_logging
+    set_logging(args)
     seed, n = args
     rng = random.Random(seed)
     out = []
     for k in range(n):
-        kind = (KINDS14 + ["almost"])[k % 5]
-        plan = [P.item_noise(almost_readouts(rng, seed + k // 5) if kind == "almost" else _noise14(rng, kind))] + [P.item_readout(rng, tag=j, nlines=rng.choice([0, 1, 3])) for j in range(rng.randint(2, 4))]
+        kind = (KINDS14 + ["almost", "longrun"])[k % 6]
+        plan = [P.item_noise(almost_readouts(rng, seed + k // 6) if kind == "almost" else longrun(rng, "p1") if kind == "longrun" else _noise14(rng, kind))] + [P.item_readout(rng, tag=j, nlines=rng.choice([0, 1, 3])) for j in range(rng.randint(2, 4))]
         data = P.plan_wire(plan)
         cuts = chunkings(rng, len(data), 3)
-        out.append(P.make_trace(data, cuts, mode="resync", plan=plan, origin="gen:c14:" + kind))
+        out.append(P.make_trace(data, cuts, mode="resync", plan=plan, origin="gen:c14:" + kind, nodrift=(kind == "longrun")))
     return out
 
 
@@ -150,7 +166,7 @@ def run_c14(chk: Check) -> int:
     chk.sample({"reader": "hdlc", "cfg": t["cfg"], "origin": t["origin"], "noise": bytes(t["plan"][0]["o"][:30]).hex()})
     chk.assumptions += ["an exception out of read(), is_valid, payload, as_bytes, message_type or data_received() is recorded as an "
                         "observation and rejected by the contract; C16 clauses on the clean suffix are part of C14's statement"]
-    return chk.finish(rule="noise of five kinds (messages right in everything but one boundary-valued octet / one damaged place; uniform 0..255; structural characters / ! LF CR 7E 7D >=0x80 hex/non-hex; P1-shaped fragments "
+    return chk.finish(rule="noise of six kinds (long runs of one octet or unit after a flag / an identification line; messages right in everything but one boundary-valued octet / one damaged place; uniform 0..255; structural characters / ! LF CR 7E 7D >=0x80 hex/non-hex; P1-shaped fragments "
                            "incl. '!' in the identification line, non-ASCII after '!'; HDLC-shaped fragments) followed by a clean suffix, "
                            ">=3 chunkings, both readers (HDLC in 4 configurations), both protocol classes with [HDLC,P1] and [P1,HDLC]; TLC "
                            "rejects any recorded exception and checks the suffix per C16; non-trivial = distinct noise prefix")
@@ -282,6 +298,8 @@ P1_PATTERNS = ["slash_lines_no_bang", "slash_no_lf", "ident_endless_lines", "val
 
 
 def _mem_job(args):
+    from .core import set_logging
+    set_logging(args)
     reader, cfg, pattern, total, chunk, seed = args
     rng = random.Random(seed)
     data = _pattern_stream(reader, cfg, pattern, total, rng)
